@@ -294,6 +294,27 @@ class ServerModel:
                     'emit', 'e', (1, b'b'), to=to, namespace=ns))
             self._do(tw, f'send {ns}', lambda w: w.api(
                 'send', {'m': 1}, namespace=ns, skip_sid='x'))
+            # the application keeps one skip_sid list and one payload dict
+            # and uses them for several emits: they are the application's,
+            # nobody may write to them
+            kept = {}
+
+            def reuse(w):
+                key = 'a' if w is tw.a else 's'
+                if key not in kept:
+                    first = [w.sid_of(w.slot[0], ns)] \
+                        if (0, ns) in tw.conn else ['nobody']
+                    kept[key] = (first, {'d': {'b': b'x'}}, list(first))
+                skip, payload, orig = kept[key]
+                r = w.api('emit', 'e', payload, namespace=ns, skip_sid=skip)
+                if skip != orig or payload != {'d': {'b': b'x'}}:
+                    return ('exc', 'ArgumentMutated',
+                            f'skip_sid {w.namer.norm(skip)!r} payload '
+                            f'{payload!r}')
+                return r
+            for rep in (1, 2):
+                self._do(tw, f'emit #{rep} with a kept skip_sid list and '
+                         f'payload on {ns}', reuse)
         for (s, ns) in sorted(tw.conn):
             self._do(tw, f'rooms {s}{ns}', lambda w: w.api(
                 'rooms', w.sid_of(w.slot[s], ns), namespace=ns))
